@@ -124,7 +124,7 @@ def cases(tier, seed):
             if well_formed(g):
                 yield {"globs": [g], "deep": False}
     for g in PLUMB_GLOBS:
-        for loc in ("", "d/"):
+        for loc in ("", "d/", "d/e/"):
             yield {"plumb": g, "loc": loc}
 
 
@@ -133,7 +133,8 @@ PLUMB_GLOBS = ["a", "*", "**", "*.py", "d/*", "d/**", "**/a", "**/*.py", "\\*", 
                "\\a", "*\\*", "**.py", "d/**/b.py", "d/d/../a",
                "d**", "d**.py", "**b.py", "e**/a", "d**/a", "d/e**", "*/e/**", "a**"]
 PLUMB_NAMES = ["a", "b.py", "*", "\\", "a b"]
-PLUMB_DIRS = ["", "d/", "e/", "d/e/", "d/d/"]
+PLUMB_DIRS = ["", "d/", "e/", "d/e/", "d/d/", "dd/", "d2/", "d-e/", "d/e2/"]   # incl. siblings whose name extends the REUSE.toml directory's name
+PLUMB_EXTRA = ["da", "d.py", "d/ea"]
 
 
 def evaluate_plumb(case) -> R:
@@ -146,7 +147,7 @@ def evaluate_plumb(case) -> R:
     toml = "version = 1\n\n[[annotations]]\npath = %s\nprecedence = \"override\"\n" % json.dumps(g)
     toml += 'SPDX-FileCopyrightText = "2020 Toml"\nSPDX-License-Identifier = "MIT"\n'
     recipe = {loc + "REUSE.toml": toml, "LICENSES/MIT.txt": "text\n"}
-    files = [d + n for d in PLUMB_DIRS for n in PLUMB_NAMES]
+    files = [d + n for d in PLUMB_DIRS for n in PLUMB_NAMES] + PLUMB_EXTRA
     for f in files:
         recipe[f] = "x = 1\n"
     materialise(root, recipe)
